@@ -221,3 +221,26 @@ Definition jt_draw (t : tri3) (w : Z) (al : alignment) (fill : option Z) : optio
                           end) (jt_for_sequence rs))
     | None => None
     end.
+
+(* ---- hypotheses of the translation theorems (Proofs/JoinTri.v), as computable predicates ------------------- *)
+Definition tr_tri (d : point) (t : tri3) : tri3 :=
+  let '(p1, p2, p3) := t in (padd p1 d, padd p2 d, padd p3 d).
+
+(* no used intersection of the three joins of the triangle reaches the saturating cast, before and after the move *)
+Definition tri_nosat (t : tri3) (w : Z) (so : stroke_offset) (d : point) : bool :=
+  let '(p1, p2, p3) := t in
+  win_nosat w so d (p3, p1, p2) && win_nosat w so d (p1, p2, p3) && win_nosat w so d (p2, p3, p1).
+
+(* the three thick segments of the stroke (ClosedThickSegmentIter on the three vertices) *)
+Definition tri_segs (t : tri3) (w : Z) (so : stroke_offset) : option (list thick_segment) :=
+  let '(a, b, c) := t in closed_thick_segment_iter [a; b; c] w so.
+
+(* vertices and segment corners within +-2^29 *)
+Definition tri_box_okb (t : tri3) (w : Z) (so : stroke_offset) : bool :=
+  jpt_bigb (fst (fst t)) && jpt_bigb (snd (fst t)) && jpt_bigb (snd t) &&
+  match tri_segs (jt_sorted_clockwise t) w so with Some segs => forallb seg_okb segs | None => true end.
+
+(* all hypotheses of the composition theorems for the triangle t, width w, alignment al, moved by d *)
+Definition tri_hyps (t : tri3) (w : Z) (al : alignment) (d : point) : bool :=
+  let so := so_of_alignment al in
+  tri_nosat (jt_sorted_clockwise t) w so d && tri_box_okb t w so && tri_box_okb (tr_tri d t) w so.
